@@ -560,6 +560,8 @@ static std::string gen_float(bool nonneg) {
   std::string s = std::to_string(ri(0, 999));
   if (rbool(60)) s += "." + std::to_string(ri(0, 99999));
   if (rbool(35)) s += std::string(rbool() ? "e" : "E") + pick<std::string>({"", "-", "+"}) + std::to_string(ri(0, 12));
+  // magnitudes beyond single precision (valid doubles: 3.5e38 .. 9.9e300 and 1e-39 .. 1e-300)
+  if (rbool(8)) s = std::to_string(ri(1, 9)) + "." + std::to_string(ri(0, 99999)) + "e" + pick<std::string>({"", "+", "-"}) + std::to_string(pick<int>({38, 39, 45, 100, 300}));
   if (!nonneg && rbool(40)) s = "-" + s;
   return s;
 }
